@@ -22,11 +22,11 @@ import (
 
 // ccOp is one backend-reaching operation of the pairwise rendezvous.
 type ccOp struct {
-	Name   string
-	Needs  string // type the target fid must denote: dir | file | openfile | opendir | symlink | any
-	Gate   string // backend method at which the operation is held (native/non-native agnostic unless GateNative set)
-	GateN  string // backend method when WalkGetAttr is native ("" = same)
-	Build  func(fid uint64, tag string) *refcodec.Msg
+	Name  string
+	Needs string // type the target fid must denote: dir | file | openfile | opendir | symlink | any
+	Gate  string // backend method at which the operation is held (native/non-native agnostic unless GateNative set)
+	GateN string // backend method when WalkGetAttr is native ("" = same)
+	Build func(fid uint64, tag string) *refcodec.Msg
 }
 
 func ccOps() []ccOp {
